@@ -4,7 +4,7 @@ from .lib import *
 
 RULE = ("exhaustive product (both tiers): request version {1.0,1.1} x request Connection {absent, close, keep-alive, [keep-alive, close], [close, keep-alive]} x "
         "(plus statuses 205 and 300 on a reduced product) x handshake {GET, POST, POST+Expect continued, POST+Expect given up, POST+Expect refused bare, POST+Expect refused with fields, "
-        "POST+Expect answered by an interim 102} x response version {1.0,1.1} x status {200, 302, 404; 205 and 300 on a reduced product} x framing {length 0, length 3, "
+        "POST+Expect answered by an interim 102, GET answered by an un-awaited 100 / a 103 first} x response version {1.0,1.1} x status {200, 302, 404; 205 and 300 on a reduced product} x framing {length 0, length 3, "
         "chunked, close-delimited, close-delimited with Transfer-Encoding: gzip}; plus 3xx heads returned before they are complete "
         "(message boundary lost) x response "
         "Connection {absent, close, keep-alive, [keep-alive, close], [close, keep-alive]}; close-delimited bodies also abandoned without a read; every flow is driven to Cleanup and, for 302, also inspected in "
@@ -17,7 +17,7 @@ EXHAUSTIVE = {"quick": True, "thorough": True}
 _stats = {"must_close": 0, "reusable": 0}
 
 REQ_CONN = ["absent", "close", "keep-alive", "both", "both-rev"]
-HANDSHAKE = ["get", "post", "expect-continue", "expect-giveup", "expect-refused", "expect-refused-fields", "expect-refused-1xx"]
+HANDSHAKE = ["get", "post", "expect-continue", "expect-giveup", "expect-refused", "expect-refused-fields", "expect-refused-1xx", "get-interim100", "get-interim103"]
 FRAMING = ["len0", "len3", "chunked", "close", "close-te"]
 REASONS = {
     b"version is http1.0": "h10",
@@ -39,7 +39,7 @@ def conn_fields(kind, name=b"Connection"):
 
 
 def build(rv, rconn, hs, sv, status, framing, sconn, skip_read=False):
-    method = "GET" if hs == "get" else "POST"
+    method = "GET" if hs.startswith("get") else "POST"
     headers = conn_fields(rconn, b"connection")
     if hs.startswith("expect"):
         headers.append((b"expect", b"100-continue"))
@@ -83,6 +83,10 @@ def build(rv, rconn, hs, sv, status, framing, sconn, skip_read=False):
         ops += ["raw_try100 %s" % hx(head), "q_keep_await", "proceed"]
     if method == "POST" and not refused:
         ops += ["write_body %s #100" % hx(b"hi"), "proceed"]
+    if hs == "get-interim100":
+        ops += ["raw_try_response %s" % hx(INTERIM_HEADS[3])]      # a 100 Continue nobody awaits is handed to the caller; the final response follows
+    elif hs == "get-interim103":
+        ops += ["raw_try_response %s" % hx(INTERIM_HEADS[2])]
     ops += ["raw_try_response %s" % hx(head), "proceed"]
     if skip_read:
         # a close-delimited body may be abandoned: RecvBody can be left without a single read
@@ -145,7 +149,7 @@ def oracle(script, obs):
         facts.add("n100")
     has_body = not (100 <= st <= 199 or st in (204, 304))
     is_redir = 300 <= st <= 399 and st != 304
-    method = "GET" if hs == "get" else "POST"
+    method = "GET" if hs.startswith("get") else "POST"
     # close-delimited body: no framing header, and the rules give a body (not 302-without-framing)
     if framing == "close" and not is_redir and has_body:
         facts.add("cdl")
